@@ -84,7 +84,7 @@ func (s *vbStats) merge(o *vbStats) {
 	}
 }
 
-type vbSink func(v vbViol, rp vbReplay)
+type vbSink func(v vbViol, rp func() vbReplay)
 
 // vbItem is one unit of work: a world at its own height and what to do with it.
 type vbItem struct {
@@ -289,7 +289,7 @@ func vbRunItem(it vbItem, st *vbStats, sink vbSink, deadline time.Time) bool {
 	height := vbHeight(it.K)
 	w, err := vbNewWorld(it.Layout, 0, height, true)
 	if err != nil {
-		sink(vbViol{"harness", "cannot build world " + it.Layout.String() + ": " + err.Error(), -1}, vbReplay{})
+		sink(vbViol{"harness", "cannot build world " + it.Layout.String() + ": " + err.Error(), -1}, func() vbReplay { return vbReplay{} })
 		return true
 	}
 	st.worlds++
@@ -341,7 +341,7 @@ func vbOne(w *vbWorld, pending []vbID, d vbDelivery, st *vbStats, sink vbSink) v
 		st.outcomes[opc+"|fetch-did-not-ask"]++
 	}
 	for _, v := range vbJudge(w, pending, dels, out, false) {
-		sink(v, vbMkReplay(w, pending, dels, false))
+		sink(v, func() vbReplay { return vbMkReplay(w, pending, dels, false) })
 	}
 	return out
 }
@@ -448,7 +448,7 @@ func vbRunEnum(it vbItem, w *vbWorld, st *vbStats, sink vbSink, deadline time.Ti
 			one = dels[v.Del : v.Del+1]
 			v.What += consequence[v.Del]
 		}
-		sink(v, vbMkReplay(w, w.IDs, one, true))
+		sink(v, func() vbReplay { return vbMkReplay(w, w.IDs, one, true) })
 	}
 	return true
 }
